@@ -30,7 +30,8 @@ def site(r, nseeds, hosts):
         assets = []
         for i in range(r.randrange(2, 7)):
             kind = "big" if (i == 0 and k % 2 == 0) else "truncbig" if (i == 1 and k % 3 == 0) else "host429" if i == 2 else \
-                r.choice(["ok", "ok", "big", "404", "503", "reset", "redir", "json", "otherhost", "truncbig", "host429"])
+                "gzerr" if (i == 3 and k % 2 == 1) else \
+                r.choice(["ok", "ok", "big", "404", "503", "reset", "redir", "json", "otherhost", "truncbig", "host429", "gzerr"])
             a = "%s/a%d.bin" % (p, i)
             if kind == "ok":
                 pages[a] = {"ctype": "image/png", "body": {"kind": "png", "size": r.choice([100, 30000]), "seed": i}}
@@ -42,6 +43,9 @@ def site(r, nseeds, hosts):
                 # a host of its own that answers "too many requests": its bucket is penalised when the next host needs a slot
                 a = "http://127.0.%d.%d:{PORT}%s/h%d.png" % (1 + k % 200, 10 + i, p, i)
                 pages["%s/h%d.png" % (p, i)] = {"status": 429, "ctype": "text/plain", "body": {"kind": "text", "size": 10, "seed": i}}
+            elif kind == "gzerr":
+                # a large, compressed error page on a URL that is retried and given up on: its body has to be read to the end
+                pages[a] = {"status": r.choice([503, 500]), "gzip": True, "ctype": "text/html", "body": {"kind": "bin", "size": 1500000, "seed": i}}
             elif kind == "404":
                 pass
             elif kind == "503":
@@ -64,7 +68,8 @@ def site(r, nseeds, hosts):
 
 def pair(ctx, r, k):
     n = r.randrange(3, 7)
-    cfg = {"workers": r.choice([1, 2, 4]), "maxConcurrentAssets": r.choice([1, 3]), "maxRetry": r.choice([0, 1]), "httpTimeout": 4, "hqBatchSize": 2,
+    # --http-timeout is off by default (-1): some pairs run without it, so that nothing but the crawler's own clean-up ends an exchange
+    cfg = {"workers": r.choice([1, 2, 4]), "maxConcurrentAssets": r.choice([1, 3]), "maxRetry": r.choice([0, 1]), "httpTimeout": -1 if k % 2 == 0 else 4, "hqBatchSize": 2,
            "disableRateLimit": False, "rateLimitCapacity": 50, "rateLimitRefillRate": 50, "warcPoolSize": r.choice([1, 2])}
     hosts = [3, 4, 5, 6, 7, 8, 9]
     reps = []
